@@ -423,6 +423,8 @@ def run(ck):
             out, crashes = run_pass(exe, "ro", [tm[(b, s)], wk], n, work, per=idx)
             for nm, v, oc in crashes:
                 dyn["crashes"].append({"pass": "ro", "backend": b, "state": s, "entry": nm, "outcome": oc})
+                note("ungated:" + nm.split("@")[0], {"level": "ro", "backend": b, "state": s, "entry": nm, "outcome": oc,
+                                                     "oracle": "no sanitizer report / signal while calling an entry point on a READ-mode handle"})
             for r in out:
                 if r.get("openfail"):
                     continue
@@ -456,6 +458,9 @@ def run(ck):
             out, crashes = run_pass(exe, "md", [tm[(b, s)], wk], n, work, per=idx)
             for nm, v, oc in crashes:
                 dyn["crashes"].append({"pass": "modify", "backend": b, "state": s, "entry": nm, "outcome": oc})
+                if docs.get(nm.split("@")[0]) == "Read":
+                    note("ungated:" + nm.split("@")[0], {"level": "md", "backend": b, "state": s, "entry": nm, "outcome": oc,
+                                                         "oracle": "no sanitizer report / signal while calling a documented read in MODIFY mode"})
             for r in out:
                 if r.get("openfail"):
                     continue
